@@ -705,6 +705,7 @@ func (r *Runner) funcParamCall(st *State, f *Frame, fnv Val, common *ssa.CallCom
 		}
 	}
 	r.nilCheck(st, fnv, "call of nil func "+exprText(f.fn, common.Value), pos)
+	r.noteLeaks(st, args)
 	// call-site assertions of the calling function (before NAME [label] expr) for a func-typed value,
 	// NAME being its source text (e.g. the parameter name); arg0, arg1, ... name the arguments
 	if f.spec != nil && r.quiet == 0 {
